@@ -58,7 +58,7 @@ func Alphabet(pc ref.PConfig) []ref.Cmd {
 		wire := []byte(first + "\r\n..dot line\r\nlast\r\n.\r\n")
 		return body, wire
 	}
-	for _, d := range []string{"accept-d1", "reject-d2", "early-d3", "panic-d4"} {
+	for _, d := range []string{"accept-d1", "reject-d2", "early-d3", "panic-d4", "rejectne-d5"} {
 		body, wire := msg(d)
 		add(ref.Cmd{Name: "DATA " + d, Op: "DATA", Body: body, Steps: [][]byte{line("DATA"), wire}})
 	}
@@ -75,6 +75,7 @@ func Alphabet(pc ref.PConfig) []ref.Cmd {
 	chunk("BDAT accept-c1", "accept-c1\r\n", false)
 	chunk("BDAT accept-c2 LAST", "accept-c2\r\n.\r\n", true)
 	chunk("BDAT reject-c3 LAST", "reject-c3\r\nx", true)
+	chunk("BDAT rejectne-c6 LAST", "rejectne-c6\r\nx", true)
 	chunk("BDAT 0 LAST", "", true)
 	chunk("BDAT early-c4 (fails inside the chunk)", "early-c4\r\nrest of chunk", false)
 	chunk("BDAT early-c5 LAST (fails inside the chunk)", "early-c5\r\nrest", true)
